@@ -15,6 +15,7 @@ coord/work steps, which is what the model is given).
 from __future__ import annotations
 
 import itertools
+import threading
 
 from harness.common import Failure, Spec, coq_bool, coq_list, coq_option, stable_hash
 
@@ -305,6 +306,19 @@ def _quiet_logging():
         _QUIET.append(1)
 
 
+class _PoolThread(threading.Thread):
+    """a thread whose join() gives up after 2 s, so that a stop() that cannot stop its workers shows up as
+    `alive > 0` in the observation instead of hanging the check (ThreadPool.stop() must run in the submitting
+    thread -- LockWorker keeps per-thread state -- so it cannot be moved to a watchdog thread)"""
+
+    def __init__(self, *a, **kw):
+        super().__init__(*a, **kw)
+        self.daemon = True
+
+    def join(self, timeout=None):
+        super().join(2.0 if timeout is None else timeout)
+
+
 def pool_impl(case) -> str:
     import threading
     import time as _time
@@ -329,7 +343,7 @@ def pool_impl(case) -> str:
             raise RuntimeError("can't start new thread")      # what the OS says under thread exhaustion
         if tp.workers >= tp.max:
             over.append((tp.workers, tp.max))
-        return threading.Thread(*a, **kw)
+        return _PoolThread(*a, **kw)
 
     tp.threadFactory = factory
 
@@ -604,8 +618,9 @@ def to_coq(case):
 def shrink(case):
     if case.get("kind") == "pool":
         ts = case["tasks"]
-        for i in range(len(ts)):
-            yield {**case, "tasks": ts[:i] + ts[i + 1:], "pre": min(case["pre"], len(ts) - 1)}
+        for i in range(min(len(ts), 6)):
+            yield {**case, "tasks": ts[:i] + ts[i + 1:], "pre": min(case["pre"], len(ts) - 1),
+                   "saw": [min(x, len(ts) - 1) for x in case.get("saw") or []]}
         return
     ops = case["ops"]
     for i in range(len(ops)):
